@@ -295,14 +295,15 @@ namespace detail
 	{
 		GLM_STATIC_ASSERT(std::numeric_limits<T>::is_integer, "'bitfieldReverse' only accept integer values");
 
-		vec<L, T, Q> x(v);
-		x = detail::compute_bitfieldReverseStep<L, T, Q, detail::is_aligned<Q>::value, sizeof(T) * 8>=  2>::call(x, static_cast<T>(0x5555555555555555ull), static_cast<T>( 1));
-		x = detail::compute_bitfieldReverseStep<L, T, Q, detail::is_aligned<Q>::value, sizeof(T) * 8>=  4>::call(x, static_cast<T>(0x3333333333333333ull), static_cast<T>( 2));
-		x = detail::compute_bitfieldReverseStep<L, T, Q, detail::is_aligned<Q>::value, sizeof(T) * 8>=  8>::call(x, static_cast<T>(0x0F0F0F0F0F0F0F0Full), static_cast<T>( 4));
-		x = detail::compute_bitfieldReverseStep<L, T, Q, detail::is_aligned<Q>::value, sizeof(T) * 8>= 16>::call(x, static_cast<T>(0x00FF00FF00FF00FFull), static_cast<T>( 8));
-		x = detail::compute_bitfieldReverseStep<L, T, Q, detail::is_aligned<Q>::value, sizeof(T) * 8>= 32>::call(x, static_cast<T>(0x0000FFFF0000FFFFull), static_cast<T>(16));
-		x = detail::compute_bitfieldReverseStep<L, T, Q, detail::is_aligned<Q>::value, sizeof(T) * 8>= 64>::call(x, static_cast<T>(0x00000000FFFFFFFFull), static_cast<T>(32));
-		return x;
+		typedef typename detail::make_unsigned<T>::type U;
+		vec<L, U, Q> x(v);
+		x = detail::compute_bitfieldReverseStep<L, U, Q, detail::is_aligned<Q>::value, sizeof(T) * 8>=  2>::call(x, static_cast<U>(0x5555555555555555ull), static_cast<U>( 1));
+		x = detail::compute_bitfieldReverseStep<L, U, Q, detail::is_aligned<Q>::value, sizeof(T) * 8>=  4>::call(x, static_cast<U>(0x3333333333333333ull), static_cast<U>( 2));
+		x = detail::compute_bitfieldReverseStep<L, U, Q, detail::is_aligned<Q>::value, sizeof(T) * 8>=  8>::call(x, static_cast<U>(0x0F0F0F0F0F0F0F0Full), static_cast<U>( 4));
+		x = detail::compute_bitfieldReverseStep<L, U, Q, detail::is_aligned<Q>::value, sizeof(T) * 8>= 16>::call(x, static_cast<U>(0x00FF00FF00FF00FFull), static_cast<U>( 8));
+		x = detail::compute_bitfieldReverseStep<L, U, Q, detail::is_aligned<Q>::value, sizeof(T) * 8>= 32>::call(x, static_cast<U>(0x0000FFFF0000FFFFull), static_cast<U>(16));
+		x = detail::compute_bitfieldReverseStep<L, U, Q, detail::is_aligned<Q>::value, sizeof(T) * 8>= 64>::call(x, static_cast<U>(0x00000000FFFFFFFFull), static_cast<U>(32));
+		return vec<L, T, Q>(x);
 	}
 
 #		if GLM_COMPILER & GLM_COMPILER_VC
